@@ -92,7 +92,8 @@ def do_case(ctx, inp):
     ctx.case(inp, nontrivial=len({x for x in flat if x != 0}) > 1, tags={f"dim-{dim}", f"method-{method}", f"axis-{axis}"})
     op = {"op": "compress", "dim": dim, "method": method, "m": m}
     if axis is not None: op["axis"] = axis
-    ctx.op(op, {"r": res})
+    # "r": the model that mirrors the code's plumbing; "spec": the key specification the C13 theorems are about
+    ctx.op(op, {"r": res, "spec": res})
     if dim == 1:
         check2d(ctx, method, [m], res, "1-D")
     elif dim == 2:
